@@ -186,22 +186,94 @@ def render(toks, rng, plain=False, inject=None):
     return "".join(out), words
 
 
-def project(text, words):
-    """Projection of an observation: sorted positions whose unique word occurs in the text.
+def project(main, others, words):
+    """Projection of an observation -> (seen, seq).
+    seen: sorted positions whose unique word occurs in ANY text-bearing accessor (main text, unit texts, table cells,
+          heading / link lists, title);  seq: positions of the words found in the MAIN text, in order of occurrence.
     Substring search: inline tags between two words are dropped without leaving whitespace.
     (word = letter + position + "y" + salt: no word is a substring of another)"""
-    text = text or ""
-    return sorted(p for w, p in words.items() if w in text)
+    main = main or ""
+    blob = main + "\n" + "\n".join(others)
+    seen = sorted(p for w, p in words.items() if w in blob)
+    seq = [p for _, p in sorted((main.find(w), p) for w, p in words.items() if w in main)]
+    return seen, seq
+
+
+def _flat(x):
+    """All strings inside nested lists / dicts (tables, heading and link lists)."""
+    if isinstance(x, str):
+        return [x]
+    if isinstance(x, dict):
+        return [t for k, v in x.items() if k != "href" for t in _flat(v)]
+    if isinstance(x, (list, tuple)):
+        return [t for v in x for t in _flat(v)]
+    return []
+
+
+def _texts_html(r):
+    """(main text, every other text-bearing accessor) of an HtmlContent."""
+    others = [r.content or "", r.metadata.title or ""] + _flat(r.tables) + _flat(r.headings) + _flat(r.links)
+    others += [u.get_text() for u in r.iterate_units()]
+    others += _flat([t.get_table() for t in r.iterate_tables()])
+    return r.get_full_text(), others
 
 
 # --------------------------------------------------------------------------- wrappers
-def _mhtml(html_bytes, enc):
-    body = base64.encodebytes(html_bytes) if enc == "base64" else quopri.encodestring(html_bytes)
+_REMOVABLE_END = re.compile(r"</(?:script|style|noscript|iframe|object|applet)|-->", re.I)
+
+
+def _qp_encode(data, width, rng):
+    """Quoted-printable with soft line breaks every `width` columns (<= 76) AND inside the end tag of every
+    removable element / the --> of every comment (all legal: RFC 2045 allows a soft break anywhere)."""
+    text = data.decode("latin-1")
+    forced = {m.start() + rng.randint(1, 2) for m in _REMOVABLE_END.finditer(text)}
+    out, col = [], 0
+    for i, ch in enumerate(text):
+        if ch == "\n":
+            if out and out[-1] in (" ", "\t"):                      # trailing blank must be encoded
+                out[-1] = "=%02X" % ord(out[-1])
+            out.append("\r\n")
+            col = 0
+            continue
+        tok = ch if (33 <= ord(ch) <= 126 and ch != "=") or ch in " \t" else "=%02X" % ord(ch)
+        if col + len(tok) > width - 1 or (i in forced and col > 0):
+            if out and out[-1] in (" ", "\t"):
+                out[-1] = "=%02X" % ord(out[-1])
+            out.append("=\r\n")
+            col = 0
+        out.append(tok)
+        col += len(tok)
+    if out and out[-1] in (" ", "\t"):
+        out[-1] = "=%02X" % ord(out[-1])
+    enc = "".join(out).encode("ascii")
+    if quopri.decodestring(enc).replace(b"\r\n", b"\n") != data.replace(b"\r\n", b"\n"):
+        raise RuntimeError("harness: quoted-printable encoder does not round-trip")
+    return enc
+
+
+def _spell(name, rng):
+    return rng.choice([name, name, name.upper(), "-".join(x.capitalize() for x in name.split("-"))])
+
+
+def _mhtml(html_bytes, enc, rng):
+    """MIME HTML archive; the transfer encoding's NAME is spelled lower / UPPER / Title case (case-insensitive per
+    RFC 2045), the encoded body's line width is drawn."""
+    if enc == "base64":
+        w = rng.choice([16, 40, 76])
+        raw = base64.b64encode(html_bytes)
+        body = b"\r\n".join(raw[i:i + w] for i in range(0, len(raw), w))
+        cte = _spell("base64", rng)
+    elif enc == "quoted-printable":
+        body = _qp_encode(html_bytes, rng.choice([12, 30, 54, 76]), rng)
+        cte = _spell("quoted-printable", rng)
+    else:
+        body = html_bytes.replace(b"\n", b"\r\n")
+        cte = _spell(rng.choice(["7bit", "8bit", "binary"]), rng)
     b = b"----MultipartBoundary--c17----"
     return (b"From: <Saved by Blink>\r\nSnapshot-Content-Location: http://example.org/\r\nSubject: s\r\n"
             b"MIME-Version: 1.0\r\nContent-Type: multipart/related;\r\n\ttype=\"text/html\";\r\n\tboundary=\"" + b + b"\"\r\n\r\n\r\n"
             b"--" + b + b"\r\nContent-Type: text/html\r\nContent-ID: <frame-1@mhtml.blink>\r\n"
-            b"Content-Transfer-Encoding: " + (b"base64" if enc == "base64" else b"quoted-printable") +
+            b"Content-Transfer-Encoding: " + cte.encode() +
             b"\r\nContent-Location: http://example.org/\r\n\r\n" + body + b"\r\n--" + b +
             b"\r\nContent-Type: image/gif\r\nContent-Transfer-Encoding: base64\r\nContent-Location: http://example.org/p.gif\r\n\r\n"
             b"R0lGODlhAQABAAAAACw=\r\n--" + b + b"--\r\n")
@@ -283,18 +355,35 @@ def _worker(inp, outp):
     msgfx = _MsgFixture() if job["msgfile"] else None
     msg_skipped = 0
 
+    CONTEXTS = {                                       # context frames: their tags are tokens of the validated string
+        "plain": ([], []),
+        "sibling": ([["S", "b"], ["T", ""], ["E", "b"]], []),          # a closed inline sibling directly in front
+        "td": ([["S", "table"], ["S", "tr"], ["S", "td"]], [["E", "td"], ["E", "tr"], ["E", "table"]]),
+        "th": ([["S", "table"], ["S", "tr"], ["S", "th"]], [["E", "th"], ["E", "tr"], ["E", "table"]]),
+        "li": ([["S", "ul"], ["S", "li"]], [["E", "li"], ["E", "ul"]]),
+        "h2": ([["S", "h2"]], [["E", "h2"]]),
+        "a": ([["S", "a"]], [["E", "a"]]),
+    }
+    CTX_NAMES = ["plain"] * 4 + ["sibling"] * 2 + ["td", "th", "li", "h2", "a"]
+
     def frame(toks, w="html"):
         """-> (full token list incl. the frame's own tokens, html text, words, eof).
         bare: a leading text word puts the fragment in body context, the string is flush with end of input;
         doc : <html><head>..</head><body> toks </body></html>, the <body> tags are tokens of the string;
-              EPUB only, every other time: the head carries <script src=".."/> (an empty element in XHTML)."""
+              EPUB only, every other time: the head carries <script src=".."/> (an empty element in XHTML).
+        A context frame (table cell, list item, heading, link, closed inline sibling) is drawn around the string."""
         bare = rng.random() < 0.5 or toks[-1:] == [["A", ""]]
-        if ["E", "body"] in toks:                      # </body> only means something inside a real <body>
-            bare = False
+        ctx = rng.choice(CTX_NAMES)
+        if ["E", "body"] in toks:                      # </body> only means something directly inside a real <body>
+            bare, ctx = False, "plain"
+        if toks[-1:] == [["A", ""]]:                   # the dangling '&' must stay flush with the end of input
+            ctx = "plain"
+        pre, post = CONTEXTS[ctx]
+        toks = pre + toks + post
         if bare:
             full = [["T", ""]] + toks
             html, words = render(full, rng)
-            return full, html, words, True
+            return full, html, words, ctx == "plain"
         if w == "epub" and rng.random() < 0.5:
             full = [["X", "script"], ["S", "body"]] + toks + [["E", "body"]]
             html, words = render(full, rng, inject=(1, "</head>"))
@@ -303,9 +392,12 @@ def _worker(inp, outp):
         html, words = render(full, rng)
         return full, DOC_HEAD + "</head>" + html + DOC_POST, words, False
 
-    def add(w, full, eof, html, words, text):
+    def add(w, full, eof, html, words, obs):
+        """obs = (main text, other accessors) or an "EXC-..." string."""
+        main, others = (obs, []) if isinstance(obs, str) else obs
+        seen, seq = project(main, others, words)
         events.append({"a": "Obs", "w": w, "eof": eof, "toks": [{"k": k, "n": n} for k, n in full],
-                       "seen": project(text, words), "html": html, "base": cur[0]})
+                       "seen": seen, "seq": seq, "html": html, "base": cur[0]})
 
     def guarded(fn):
         try:
@@ -320,16 +412,21 @@ def _worker(inp, outp):
         if "html" in sel:
             full, html, words, eof = frame(toks)
             add("html", full, eof, html, words,
-                guarded(lambda: next(read_html(io.BytesIO(html.encode("utf-8")), path="x.html")).get_full_text()))
+                guarded(lambda: _texts_html(next(read_html(io.BytesIO(html.encode("utf-8")), path="x.html")))))
         if "msg" in sel:
             full, html, words, eof = frame(toks, "msg")
             add("msg", full, eof, html, words, guarded(lambda: _html_to_text(html)))
-        for w, enc in (("mhtml_b64", "base64"), ("mhtml_qp", "quoted-printable")):
-            if w in sel:
-                full, html, words, eof = frame(toks)
-                blob = _mhtml(html.encode("utf-8"), enc)
-                add(w, full, eof, html, words,
-                    guarded(lambda: next(read_mhtml(io.BytesIO(blob), path="x.mhtml")).get_full_text()))
+        if "mhtml_b64" in sel:                         # first MHTML observation: base64, sometimes an unencoded part
+            enc, w = ("base64", "mhtml_b64") if rng.random() < 0.75 else ("identity", "mhtml_raw")
+            full, html, words, eof = frame(toks)
+            blob = _mhtml(html.encode("utf-8"), enc, rng)
+            add(w, full, eof, html, words,
+                guarded(lambda: _texts_html(next(read_mhtml(io.BytesIO(blob), path="x.mhtml")))))
+        if "mhtml_qp" in sel:
+            full, html, words, eof = frame(toks)
+            blob = _mhtml(html.encode("utf-8"), "quoted-printable", rng)
+            add("mhtml_qp", full, eof, html, words,
+                guarded(lambda: _texts_html(next(read_mhtml(io.BytesIO(blob), path="x.mhtml")))))
         if "epub" in sel:
             full, html, words, eof = frame(toks, "epub")
             epub_q.append((full, eof, html, words, toks))
@@ -351,12 +448,20 @@ def _worker(inp, outp):
                     msg_skipped += 1            # the rewritten fixture did not carry the body: harness limit
                 else:
                     add("msgfile", full, bare, html, words, res.body_plain)
-    # EPUB: many chapters per book
+    # EPUB: many chapters per book; a chapter's text-bearing accessors: text, title, tables (cell text lives only there)
     for k in range(0, len(epub_q), 100):
         batch = epub_q[k:k + 100]
         blob = _epub([b[2].encode("utf-8") for b in batch])
         res = guarded(lambda: next(read_epub(io.BytesIO(blob), path="x.epub")))
-        by_href = {} if isinstance(res, str) else {c.href: c.text for c in res.chapters}
+        by_href = {}
+        if not isinstance(res, str):
+            units = {u.href: u for u in res.iterate_units()}
+            for c in res.chapters:
+                u = units.get(c.href)
+                others = [c.title or ""] + _flat(c.tables) + _flat([t.get_table() for t in c.get_tables()])
+                if u is not None:
+                    others += [u.get_text()] + _flat([t.get_table() for t in u.get_tables()])
+                by_href[c.href] = (c.text, others)
         for i, (full, eof, html, words, base) in enumerate(batch):
             cur[0] = base
             add("epub", full, eof, html, words, by_href.get(f"OEBPS/c{i}.xhtml", "MISSING-CHAPTER"))
@@ -366,13 +471,13 @@ def _worker(inp, outp):
 
 # --------------------------------------------------------------------------- validation by TLC
 _ACC = re.compile(r'<<"ACCEPT", (\d+)>>')
-_BAD = re.compile(r'<<"BAD", (\d+), (\d+), (<<.*?>>)>>')
+_BAD = re.compile(r'<<"BAD", (\d+), (\d+),\s*(<<.*?>>)\s*>>', re.S)
 TR_CFG = "SPECIFICATION TraceSpec\nCONSTRAINT TraceAccept\n"
 EX_CFG = "SPECIFICATION ExplainSpec\n"
 
 
 def _strip(t):
-    return {"id": t["id"], "ev": [{k: e[k] for k in ("a", "w", "eof", "toks", "seen")} for e in t["ev"]]}
+    return {"id": t["id"], "ev": [{k: e[k] for k in ("a", "w", "eof", "toks", "seen", "seq")} for e in t["ev"]]}
 
 
 def validate_events(ctx, traces, parallel=12):
@@ -406,6 +511,9 @@ def validate_events(ctx, traces, parallel=12):
         rchunks = [rej[i:i + size] for i in range(0, len(rej), size)]
         with ThreadPoolExecutor(len(rchunks)) as ex:
             for idx, r in ex.map(lambda c: run_chunk(c, EX_CFG, "x"), rchunks):
+                for tid, l in re.findall(r'<<"MALFORMED", (\d+), (\d+)>>', r.output):
+                    e = traces[idx[int(tid) - 1]]["ev"][int(l) - 1]
+                    raise MachineryError("malformed observation (harness fault): " + json.dumps(e)[:1500])
                 for tid, l, cls in _BAD.findall(r.output):
                     bad[(idx[int(tid) - 1], int(l) - 1)] = re.findall(r'"([A-Z-]+)"', cls)
                 distinct += r.distinct
@@ -488,10 +596,13 @@ def _report(ctx, traces, accepted, bad):
             what.append(f"visible text lost (positions {lost})")
         if leaked:
             what.append(f"removed content extracted (positions {leaked})")
+        must_seq = [q for q in e["seq"] if cls[q - 1] == "MUST"]
+        if must_seq != sorted(must_seq):
+            what.append(f"visible text rearranged (order in the main text {must_seq})")
         v.violation(what=f"{'; '.join(what) or 'observation rejected'} via {w}: {comp}   "
                          f"[{len(items)} rejected observations in this run]",
                     case={"wrapper": w, "eof": e["eof"], "toks": e["toks"], "base": e["base"], "html": e["html"]},
-                    expected=cls, observed={"seen_positions": e["seen"]}, where=WHERE)
+                    expected=cls, observed={"seen_positions": e["seen"], "order_in_main_text": e["seq"]}, where=WHERE)
 
 
 def _build_traces(events):
@@ -527,13 +638,15 @@ def run(ctx):
     # ---- 1. theorem + sensitivity
     if ctx.thorough:
         theorem = [("AlphaQ1", 5), ("AlphaQ2", 5), ("AlphaQ3", 7), ("AlphaQ4", 6), ("AlphaQ5B", 6), ("AlphaQ6", 5),
-                   ("AlphaT", 5), ("AlphaT2", 5)]
+                   ("AlphaQ7", 6), ("AlphaT", 5), ("AlphaT2", 5)]
         gens = [("AlphaT", 4, 0), ("AlphaT2", 4, 0), ("AlphaQ3", 6, 0), ("AlphaQ4", 5, 0), ("AlphaQ5", 5, 0),
-                ("AlphaQ6", 4, 0), ("AlphaQ1", 5, 5), ("AlphaQ2", 5, 5)]
+                ("AlphaQ6", 4, 0), ("AlphaQ7", 6, 0), ("AlphaQ1", 5, 5), ("AlphaQ2", 5, 5)]
         sample5, n_eml, n_msgfile = 40000, 5000, 1200
     else:
-        theorem = [("AlphaQ1", 4), ("AlphaQ2", 4), ("AlphaQ4", 5), ("AlphaQ5B", 5), ("AlphaQ6", 4)]
-        gens = [("AlphaQ1", 4, 0), ("AlphaQ2", 4, 0), ("AlphaQ4", 5, 0), ("AlphaQ5", 4, 0), ("AlphaQ6", 3, 0)]
+        theorem = [("AlphaQ1", 4), ("AlphaQ2", 4), ("AlphaQ4", 5), ("AlphaQ5B", 5), ("AlphaQ6", 4),
+                   ("AlphaQ7", 5)]
+        gens = [("AlphaQ1", 4, 0), ("AlphaQ2", 4, 0), ("AlphaQ4", 5, 0), ("AlphaQ5", 4, 0), ("AlphaQ6", 3, 0),
+                ("AlphaQ7", 5, 0)]
         sample5, n_eml, n_msgfile = 0, 1200, 160
     _theorems(ctx, theorem)
     ctx.log(f"theorem + sensitivity runs done ({_t()}s)")
@@ -625,10 +738,12 @@ def _corrupt_demo():
         pass
     tk = lambda *ts: [{"k": k, "n": n} for k, n in ts]
     good = {"a": "Obs", "w": "html", "eof": True, "html": "",
-            "toks": tk(("T", ""), ("S", "noscript"), ("T", ""), ("S", "img"), ("E", "noscript"), ("T", "")), "seen": [1, 6]}
+            "toks": tk(("T", ""), ("S", "noscript"), ("T", ""), ("S", "img"), ("E", "noscript"), ("T", "")), "seen": [1, 6],
+            "seq": [1, 6]}
     variants = {"recorded": good,
-                "seen += hidden position 3": dict(good, seen=[1, 3, 6]),
-                "seen -= visible position 6": dict(good, seen=[1]),
+                "seen += hidden position 3": dict(good, seen=[1, 3, 6], seq=[1, 3, 6]),
+                "seen -= visible position 6": dict(good, seen=[1], seq=[1]),
+                "order of the two visible words swapped": dict(good, seq=[6, 1]),
                 "token 5 </noscript> -> </div> (element now unclosed: DON'T-CARE, accepted)":
                     dict(good, toks=good["toks"][:4] + tk(("E", "div")) + good["toks"][5:]),
                 "wrapper name corrupted": dict(good, w="htlm")}
